@@ -15,6 +15,9 @@ for f in sorted(glob.glob('/verif/seeded/*/meta.json')):
 metas=[json.load(open(f)) for f in sorted(glob.glob('/verif/seeded/*/meta.json'))]
 missed=[m for m in metas if m['result'].startswith('MISSED')]
 out.append(f"\n{len(metas)} changes; {len(metas)-len(missed)} detected by the checks as they stood when the change arrived; {len(missed)} were missed at first and led to a strengthening (described in the result column), after which all are detected. No check had to be loosened.\n")
+out_of_reach=[m for m in metas if m['result'].startswith('NOT DETECTED (out of reach')]
+if out_of_reach:
+    out.append(f"\n{len(out_of_reach)} change(s) are **not detected** and stay so (outside the simulated boundary, DESIGN §10): "+", ".join(m['id'] for m in out_of_reach)+".\n")
 raw='/verif/SENSITIVITY_RAW.json'
 if os.path.exists(raw):
     rs=json.load(open(raw))
